@@ -992,6 +992,11 @@ Section SubProofs.
     rewrite (@retag_stable parse k g n HI HT Hn). reflexivity.
   Qed.
 
+  Corollary carved_nodes_stable k g h S E :
+    Inv k g -> (k = TS -> TagsStable g) -> carved k g h S E ->
+    v_nodes h = filter (in_set S) (v_nodes g).
+  Proof. intros HI HT (_ & _ & _ & N & _). rewrite N. apply retag3_filter_stable; assumption. Qed.
+
   Theorem descendants_subgraph_any_order k g d x l :
     Inv k g -> nx_view g = Ok d -> In x (node_ids g) -> NoDup l ->
     (forall y, In y l <-> y <> x /\ path d x y) ->
@@ -1041,6 +1046,26 @@ Section SubProofs.
     - apply removeb_nodup, anc_nodup, name_eqb_spec.
     - intros y. rewrite (removeb_in name_eqb name_eqb_spec).
       rewrite (anc_spec name_eqb name_eqb_spec x y (proj1 (nx_view_ok k g d HI Hd))). tauto.
+  Qed.
+
+  (** on a fully directed graph the two set queries are [Queries.get_ancestors] /
+      [Queries.get_descendants] of the directed part (networkx never lists the node itself; on
+      an acyclic graph it is not its own ancestor anyway) *)
+  Lemma g_ancestors_directed k g x :
+    Inv k g -> fully_directed g = true -> In x (node_ids g) ->
+    g_ancestors g x = Ok (removeb name_eqb x (get_ancestors name_eqb (dgraph g) x))
+    /\ g_descendants g x = Ok (removeb name_eqb x (get_descendants name_eqb (dgraph g) x))
+    /\ (Acyclic g ->
+        removeb name_eqb x (get_ancestors name_eqb (dgraph g) x) = get_ancestors name_eqb (dgraph g) x
+        /\ removeb name_eqb x (get_descendants name_eqb (dgraph g) x) = get_descendants name_eqb (dgraph g) x).
+  Proof.
+    intros HI Fd Hx. unfold g_ancestors, g_descendants.
+    rewrite (proj2 (at_node_exists_in g x) Hx), (nx_view_directed g Fd). cbn [bind].
+    split; [reflexivity|]. split; [reflexivity|]. intros Hac.
+    pose proof (dgraph_wf HI) as W. unfold get_ancestors, get_descendants, removeb.
+    split; apply at_filter_all_true; intros y Hy; apply negb_true_iff, name_eqb_neq; intros ->.
+    - apply (anc_spec name_eqb name_eqb_spec x x W) in Hy. exact (Hac x Hy).
+    - apply (desc_spec name_eqb name_eqb_spec x x W) in Hy. exact (Hac x Hy).
   Qed.
 
   (** [get_descendant_graph(x)]: the node itself and its descendants, all edges among them *)
@@ -1107,7 +1132,7 @@ Section SubProofs.
     rewrite Hx, (nx_view_mixed g Fd Fu). auto.
   Qed.
 
-  (** * 10. Construction-order invariance
+  (** * 9. Construction-order invariance
 
       Two states with the same CONTENT (the same nodes with their types and metadata, the same
       edges with their types and metadata, the same graph metadata), however they were built
@@ -1273,7 +1298,7 @@ Section SubProofs.
       rewrite A1, A2, B1, B2. split; reflexivity.
   Qed.
 
-  (** * 9. [get_parents_graph] / [get_children_graph] *)
+  (** * 10. [get_parents_graph] / [get_children_graph] *)
   Variable fmt : name -> Z -> option name.
 
   Theorem star_missing_node k g x :
@@ -2218,6 +2243,48 @@ Module SubGraphExamples.
     /\ match g_descendants gU nd with Ok l => Ok (sort_names l) | Err e => Err e end = Ok [ne].
   Proof. split; vm_compute; reflexivity. Qed.
 
+  (** a node without ancestors, an unknown node, a mixed graph *)
+  Example g_ancestors_more :
+    g_ancestors gA na = Ok [] /\ g_descendants gA nd = Ok []
+    /\ g_ancestors gA nzz = Err EAssert /\ g_descendants gA nzz = Err EAssert
+    /\ g_ancestors gM nb = Err EConv /\ g_descendants gM na = Err EConv
+    /\ g_ancestors gM nzz = Err EAssert
+    /\ match g_ancestors gT y0 with Ok l => Ok (sort_names l) | Err e => Err e end = Ok [x0; x1; y1].
+  Proof. repeat split; vm_compute; reflexivity. Qed.
+
+  (** [networkx] conversion: DiGraph for a fully directed graph (also one without edges),
+      refusal for a mixed one; [sub_edges] keeps the sorted order of [get_edges()] *)
+  Example nx_view_examples :
+    (exists d, nx_view gA = Ok d /\ arcs d = [(na, nb); (nb, nc); (na, nc); (nc, nd); (ne, nc)])
+    /\ nx_view gM = Err EConv
+    /\ (exists d, nx_view gU = Ok d /\ arcs d = [(na, nb); (nc, nb); (nd, ne); (nb, na); (nb, nc); (ne, nd)])
+    /\ (exists d, nx_view (empty_graph []) = Ok d /\ arcs d = [] /\ verts d = []).
+  Proof.
+    split; [eexists; split; vm_compute; reflexivity|].
+    split; [vm_compute; reflexivity|].
+    split; [eexists; split; vm_compute; reflexivity|].
+    eexists. repeat split; vm_compute; reflexivity.
+  Qed.
+  Example sub_edges_examples :
+    map edge_key (sub_edges gA [nc; na; nb]) = [(na, nb); (na, nc); (nb, nc)]
+    /\ sub_edges gA [nz; nd] = []
+    /\ map edge_key (sub_edges gM [nd; nb; nc; nzz]) = [(nb, nc); (nd, nb)].
+  Proof. repeat split; vm_compute; reflexivity. Qed.
+
+  (** [Edge.__eq__] against the directed edge a -> b, observed on the implementation:
+      a -> b equal; b -> a, a -- b, b -- a, b <> a, b oo a, a o> b all different *)
+  Example edge_sheq_examples :
+    map (fun e => edge_sheq e na nb Dir)
+      [ {| esrc := na; edst := nb; ety := Dir; emeta := [] |};
+        {| esrc := nb; edst := na; ety := Dir; emeta := [] |};
+        {| esrc := na; edst := nb; ety := Und; emeta := [] |};
+        {| esrc := nb; edst := na; ety := Und; emeta := [] |};
+        {| esrc := nb; edst := na; ety := Bi; emeta := [] |};
+        {| esrc := nb; edst := na; ety := Unk; emeta := [] |};
+        {| esrc := na; edst := nb; ety := UnkDir; emeta := [] |} ]
+    = [true; false; false; false; false; false; false].
+  Proof. vm_compute. reflexivity. Qed.
+
   (** ** Non-vacuity: the hypotheses of the theorems hold of these states *)
   Lemma gA_inv : Inv parse Plain gA.   Proof. apply (inv_run parse fmt). Qed.
   Lemma gM_inv : Inv parse Plain gM.   Proof. apply (inv_run parse fmt). Qed.
@@ -2265,7 +2332,7 @@ Module SubGraphExamples.
       /\ (forall e, In e (gsrc h) <-> In e (gsrc gM) /\ ety e = Dir /\ edst e = nb).
   Proof.
     destruct (parents_graph_spec parse fmt Plain gM nb gM_inv) as (h & H & _ & _ & _ & _ & A & B).
-    { discriminate. }
+    { intros E; discriminate E. }
     { vm_compute. tauto. }
     exists h. auto.
   Qed.
@@ -2297,6 +2364,7 @@ Module SubGraphExamples.
        OReplaceNode na None None None (Some VBin) (Some [(kk, JInt 1)])] (empty_graph [(kgm, JInt 1)]).
 
   Lemma gA'_inv : Inv parse Plain gA'.   Proof. apply (inv_run parse fmt). Qed.
+  Lemma plain_ts (P : Prop) : Plain = TS -> P.   Proof. discriminate. Qed.
 
   Example gA_gA'_same_view :
     same_view gA gA' /\ map nid (gnodes gA) <> map nid (gnodes gA').
@@ -2307,14 +2375,14 @@ Module SubGraphExamples.
     /\ V (ancestral_graph parse Plain gA' nd) = V (ancestral_graph parse Plain gA nd).
   Proof.
     split; [|vm_compute; reflexivity].
-    apply (ancestral_graph_equiv_invariant parse Plain gA gA' nd gA_inv gA'_inv (proj1 gA_gA'_same_view)).
+    exact (proj1 (ancestral_graph_equiv_invariant parse Plain gA gA' nd gA_inv gA'_inv (proj1 gA_gA'_same_view))).
   Qed.
 
   Example gA_gA'_parents_equiv :
     res_rel equiv (parents_graph parse fmt Plain gA nc) (parents_graph parse fmt Plain gA' nc).
   Proof.
-    apply (parents_children_graph_equiv_invariant parse fmt Plain gA gA' nc gA_inv gA'_inv);
-      try discriminate. exact (proj1 gA_gA'_same_view).
+    exact (proj1 (parents_children_graph_equiv_invariant parse fmt Plain gA gA' nc gA_inv gA'_inv
+                    (plain_ts _) (plain_ts _) (proj1 gA_gA'_same_view))).
   Qed.
 
   (** [_get_subgraph] is not "the induced sub-graph on the listed nodes" in general: a listed
